@@ -289,6 +289,14 @@ def _res(f):
         return ('Err', type(ex).__name__)
 
 
+def _plain(f):
+    """the value itself (the model's function is total here); an exception shows up as a disagreement"""
+    try:
+        return f()
+    except Exception as ex:     # noqa: BLE001
+        return ('Err', type(ex).__name__)
+
+
 def items(d):
     return sorted((unnm(k), fz(v)) for k, v in d.items())
 
@@ -332,7 +340,7 @@ def obs_map(w):
     ev = srcs[::2]
     ev_objs = [w.models[i] for i in ev]
     matrix = [[('None' if a is None else ('Some', unnm(a))) for a in row] for row in pmm._model_param_names]
-    g6 = (6, matrix, srcs, [int(i) for i in pmm.get_src_model_idxs(sources=ev_objs)],
+    g6 = (6, matrix, srcs, _plain(lambda: [int(i) for i in pmm.get_src_model_idxs(sources=ev_objs)]),
           _res(lambda: [unnm(n) for n in pmm.unique_source_param_names]))
     vec0, vec10 = vec.tobytes(), vec1.tobytes()
     rev = np.array(srcs[::-1], dtype=np.int32)
@@ -1098,16 +1106,26 @@ class Runner:
             observe(w)
             if self.full:
                 self.held, _ = collect_results(w)
+        del DAMAGE[:]
         err = w.apply(op)
+        dmg = DAMAGE[:]          # arguments of THIS operation that were modified
+        del DAMAGE[:]
         if err is not None and err not in ERRS:
             ctx.violation('op:' + op[0], 'unexpected-exception-' + err, f'{op!r} raised {err}',
                           case={'src': case['src'], 'ops': [list(o) for o in case['ops'][:i + 1]]}, impl=err)
         ctx.count('op:' + op[0] + (':err' if err else ':ok'))
         if checked:
-            self.before = predicates(ctx, case, w, ref, i, op, err, self.before)
-            o1 = observe(w)
-            self.out.append((('Some', err) if err else 'None', o1))
-            self.held = history_probes(ctx, case, w, i, op, self.held, o1, self.full)
+            try:
+                self.before = predicates(ctx, case, w, ref, i, op, err, self.before)
+                o1 = observe(w)
+                self.out.append((('Some', err) if err else 'None', o1))
+                DAMAGE[:0] = dmg
+                self.held = history_probes(ctx, case, w, i, op, self.held, o1, self.full)
+            except Exception as ex:     # noqa: BLE001 - an observable that cannot even be read is a violation, not a crash
+                ctx.violation('observation', 'reading-the-views-raises-' + type(ex).__name__, f'step {i} {op!r}: {ex}',
+                              case={'src': case['src'], 'ops': [list(o) for o in case['ops'][:i + 1]]}, impl=str(ex)[:300])
+                if len(self.out) <= (i if self.mode == 'trace' else 0):
+                    self.out.append((('Some', err) if err else 'None', ('unreadable',)))
         else:
             # keep the reference in step without re-checking the (already covered) prefix
             verdict, upd = ref.apply(op)
